@@ -235,6 +235,11 @@ static void pred_free(const Case &c) {
     for (size_t q = 0; q < first.a.size(); q++)
       VF_CHECK((double)first.a[q] == (double)again.a[q], "repetition %d of the same call (kind %d, %d threads, n=%d) differs at element %zu: %.17Lg vs %.17Lg", rep + 2, kind, threads, D.n, q, first.a[q], again.a[q]);
   }
+  if (kind != 0 && !(kind == 2 && 4 % threads != 0)) {   // every routine: N threads equal the sequential run (bootstrap variants: counts that divide the iterations)
+    M seq = free_once(D, kind, 1, iters, groups, seed, k, init);
+    VF_CHECK(seq.a.size() == first.a.size(), "result shape with %d threads differs from the sequential run (kind %d)", threads, kind);
+    for (size_t q = 0; q < seq.a.size(); q++) VF_CHECK(fabsl(first.a[q] - seq.a[q]) <= 1e-11L * (fabsl(seq.a[q]) + 1), "kind %d with %d threads differs from the sequential run at element %zu: %.15Lg vs %.15Lg (n=%d)", kind, threads, q, first.a[q], seq.a[q], D.n);
+  }
   if (kind == 0) {   // N threads equal the sequential run
     M seq = run_boot(D, groups, iters, 1);
     for (size_t q = 0; q < seq.a.size(); q++) VF_CHECK(fabsl(first.a[q] - seq.a[q]) <= 1e-11L * (fabsl(seq.a[q]) + 1), "bootstrap with %d threads differs from the sequential run at element %zu: %.15Lg vs %.15Lg", threads, q, first.a[q], seq.a[q]);
